@@ -254,7 +254,15 @@ func (e *Engine) DynCall(st *State, fv Val, args []Val, pos token.Pos) ([]Val, e
 	return out, nil
 }
 
+// ConvHook lets a client give meaning to specific conversions.
+var ConvHook func(e *Engine, st *State, v Val, to types.Type) (Val, bool)
+
 func (e *Engine) convert(st *State, v Val, to types.Type, pos token.Pos) (Val, error) {
+	if ConvHook != nil {
+		if r, ok := ConvHook(e, st, v, to); ok {
+			return r, nil
+		}
+	}
 	from := v.T.Sort
 	want := SortOf(to)
 	if from == want {
@@ -444,6 +452,11 @@ func (e *Engine) ApplyContract(st *State, con *contract.Func, recv *Val, args []
 	}
 	for i, p := range con.Params {
 		bound[p] = args[i]
+	}
+	for k, v := range e.ExtraBound[con.Key] {
+		if _, shadow := bound[k]; !shadow {
+			bound[k] = v
+		}
 	}
 	pre := st.Clone()
 	for i, r := range con.Requires {
@@ -656,6 +669,9 @@ func sortedInts(m map[int]bool) []int {
 
 func (e *Engine) execReturn(st *State, s *ast.ReturnStmt) ([]outcome, error) {
 	sig := e.cur.Obj.Type().(*types.Signature)
+	if e.litSig != nil {
+		sig = e.litSig
+	}
 	if RetSigHook != nil {
 		if s2 := RetSigHook(e, s); s2 != nil {
 			sig = s2
